@@ -455,14 +455,14 @@ def spanish():
     for v in sorted(ovals):
         f = forms(ovals[v])
         body.append(f"if v == {v} {{ if k == 2 {{ {W(f[2])} }} else if k == 3 {{ {W(f[3])} }} else if k == 4 {{ {W(f[4])} }} else {{ {W(f[5])} }} }}")
-    d.append("pub open spec fn es_ord_w(v: int, k: int) -> Seq<char> { " + " else ".join(body) + " else { " + W("milésimo") + " } }")
+    d.append("#[verifier::opaque] pub open spec fn es_ord_w(v: int, k: int) -> Seq<char> { " + " else ".join(body) + " else { " + W("milésimo") + " } }")
     d.append("pub open spec fn es_ord_val(v: int) -> bool { (1 <= v <= 20) || (v % 10 == 0 && 30 <= v <= 90) || (v % 100 == 0 && 100 <= v <= 900) }")
     d.append("pub open spec fn es_ord_d(v: int) -> Seq<u8> { if v < 10 { d1((48 + v) as u8) } else if v < 100 { d2((48 + v / 10) as u8, (48 + v % 10) as u8) } else { d3((48 + v / 100) as u8, 48u8, 48u8) } }")
     d.append("pub proof fn lemma_es_ord(v: int, k: int, o: DsView)")
     d.append("    requires es_ord_val(v), 2 <= k <= 5")
     d.append("    ensures es_row(es_ord_d(v), k, false, v == 2 && k <= 3, o, es_model(es_ord_w(v, k), o))")
     d.append("{")
-    d.append("    reveal(d1); reveal(d2); reveal(d3);")
+    d.append("    reveal(d1); reveal(d2); reveal(d3); reveal(es_ord_w);")
     for v in sorted(ovals):
         f = forms(ovals[v])
         d.append(f"    if v == {v} {{ assert(es_ord_d(v) =~= {digs(str(v))}); " + " ".join(f"if k == {kk} {{ es_rows_{modof[f[kk]]}::lemma_es_row_{wname(f[kk])}(o); }}" for kk in (2, 3, 4, 5)) + " }")
